@@ -1,9 +1,10 @@
 (* C04 -- BGP wire codec: encode and decode are mutually inverse and agree on framing.
    Statements only. Model: Wire.Model (header, UPDATE with IPv4 NLRI / ADD-PATH identifiers and the path attributes
-   ORIGIN .. CLUSTER_LIST plus opaque unknown attributes, KEEPALIVE, NOTIFICATION, ROUTE-REFRESH).  OPEN, MP_REACH /
-   MP_UNREACH and the other NLRI families are covered by the correspondence harness only. *)
-From Coq Require Import List ZArith Bool.
-From Verif Require Import Common.Res Common.Bytes Wire.Model Wire.Proofs.
+   ORIGIN .. CLUSTER_LIST plus opaque unknown attributes, KEEPALIVE, NOTIFICATION, ROUTE-REFRESH) and Wire.Families (the
+   NLRI of the ten core families IPv4/IPv6 x unicast, multicast, labelled, VPN, multicast VPN, as NLRIFromSlice dispatches
+   them).  OPEN, the MP_REACH / MP_UNREACH envelopes and the remaining families are covered by the correspondence harness only. *)
+From Coq Require Import List ZArith Bool Lia.
+From Verif Require Import Common.Res Common.Bytes Wire.Model Wire.Proofs Wire.Families Wire.FamiliesProofs.
 Import ListNotations.
 Open Scope Z_scope.
 
@@ -50,3 +51,49 @@ Example C04_nonvacuous :
   enc_msg false false (MUpdate (mkU [] [AUnknown 192 200 (repeat 7 5000)] [])) = None /\
   (exists b, enc_msg true false (MUpdate (mkU [] [AUnknown 192 200 (repeat 7 5000)] [])) = Some b).
 Proof. split; [eexists; split; [vm_compute; reflexivity|split; vm_compute; reflexivity]|split; [vm_compute; reflexivity|eexists; vm_compute; reflexivity]]. Qed.
+
+(* ---- the NLRI of the core families, by family (AFI 1/2 x SAFI 1, 2, 4, 128, 129) *)
+(* what Serialize emits, followed by anything, is read back by NLRIFromSlice of the same family as the same value,
+   which reports as its length exactly the octets emitted; the address length is 4 for AFI 1 and 16 for AFI 2 *)
+Theorem C04_core_family_nlri_roundtrip : forall afi safi v rest, core_family afi safi ->
+  (forall k a, family_kind afi safi = Some (k, a) -> fnlri_wf k a v) ->
+  exists k a b, family_kind afi safi = Some (k, a) /\ a = (if afi =? 1 then 4 else 16) /\
+                nlri_serialize afi safi v = Some b /\ blen b = fnlri_len k v /\ nlri_from_slice afi safi (b ++ rest) = Some (v, blen b).
+Proof. exact nlri_family_roundtrip. Qed.
+Print Assumptions C04_core_family_nlri_roundtrip.
+
+(* for every byte string the decoder accepts: the length it reports is the Len() of the value, at least one octet and
+   within the buffer, so the MP_REACH / MP_UNREACH loops never run past the attribute *)
+Theorem C04_core_family_nlri_length_consumed : forall k alen d v n,
+  bytes_ok d -> dec_fnlri k alen d = Some (v, n) -> n = fnlri_len k v /\ 1 <= n <= blen d.
+Proof. exact dec_fnlri_consumes. Qed.
+Print Assumptions C04_core_family_nlri_length_consumed.
+
+(* for every byte string the decoder accepts: the value re-serialises to octets that parse back to the same value with
+   the same length (a fixpoint), PARTIAL: provided no label above the bottom of the decoded stack is 0 or 0x80000 *)
+Theorem C04_core_family_nlri_reparse_fixpoint_partial : forall k alen d v n rest,
+  bytes_ok d -> dec_fnlri k alen d = Some (v, n) -> (k = KPlain \/ labels_wf (f_labels v)) ->
+  exists b, enc_fnlri k v = Some b /\ blen b = n /\ dec_fnlri k alen (b ++ rest) = Some (v, n).
+Proof. exact dec_fnlri_fixpoint. Qed.
+Print Assumptions C04_core_family_nlri_reparse_fixpoint_partial.
+
+(* ... and without that premise the statement is false: known finding mpls-label-above-the-bottom-reads-as-withdraw-label *)
+Theorem C04_label_above_bottom_refuted :
+  exists v b, enc_fnlri KLabelled v = Some b /\ Forall label_ok (f_labels v) /\ pfx_part_wf 4 (f_bits v) (f_oct v) /\
+              dec_fnlri KLabelled 4 b <> Some (v, blen b).
+Proof. exact label_above_bottom_refuted. Qed.
+Print Assumptions C04_label_above_bottom_refuted.
+
+Definition ex_vpn6 := mkF [100; 200] [0; 2; 0; 0; 253; 232; 0; 100] 56 [32; 1; 13; 184; 0; 3; 0].
+Example C04_core_family_nonvacuous :
+  core_family 2 129 /\ fnlri_wf KVpn 16 ex_vpn6 /\ family_kind 2 129 = Some (KVpn, 16) /\
+  (exists b, nlri_serialize 2 129 ex_vpn6 = Some b /\ blen b = 22 /\ nlri_from_slice 2 129 (b ++ [1; 2; 3]) = Some (ex_vpn6, 22)) /\
+  (* read with the address length of the wrong AFI, the same octets are refused *)
+  match nlri_serialize 2 129 ex_vpn6 with Some b => nlri_from_slice 1 129 b | None => None end = None.
+Proof.
+  split; [split; [right; reflexivity|do 4 right; reflexivity]|]. split.
+  - split; [vm_compute; repeat split; discriminate|]. split.
+    + right. split; [discriminate|]. split; [repeat constructor; unfold label_ok; lia|repeat constructor; unfold upper_ok; lia].
+    + split; [reflexivity|vm_compute; reflexivity].
+  - split; [reflexivity|]. split; [eexists; split; [vm_compute; reflexivity|split; vm_compute; reflexivity]|vm_compute; reflexivity].
+Qed.
